@@ -9,6 +9,17 @@ TB = ("Trusted: Lean 4.33 kernel; axioms propext/Classical.choice/Quot.sound onl
       "(generators, canonicalisation, oracle). The tie model<->code is regenerated facts + behavioural correspondence (a search).")
 
 CHECKS = {
+ "C01": dict(
+  text="Lean theorems about models that mirror store/verification.go branch by branch, over an arbitrary hash (conclusions Good ∨ explicit collision of H): "
+       "linear proofs are exact; the accumulated hash commits to the whole past; an accepted DualProof binds the target's tree leaf at the trusted position to the "
+       "trusted state (closes the forged-last-leaf attack found and repaired in 991a435), extends the trusted tree, links the states linearly; fork consistency between "
+       "any two well-formed histories for any binary-linking lag; DualProofV2 binding; no altered entry verifies (entry digest injectivity + htree membership soundness). "
+       "Tie: byte-exact Alh/innerHash/entry digests and verdict-exact verifiers on real stores (honest + mutated proofs + attack templates built with scratch hash trees); "
+       "oracle = the harness's own record of the history.",
+  note=TB + " Modelled rather than verified: ECDSA state signature (uninterpreted, not covered), protobuf conversion and the SDK flow in pkg/client (not yet in the model), "
+       "prover-side completeness of DualProof generation is established by correspondence + the C08 completeness theorems, not yet by a store-level theorem.",
+  technique="Lean 4 proof (collision-explicit soundness of the verifier models) + differential correspondence on real stores with mutation/attack streams",
+  design="7/C01"),
  "C08": dict(
   text="Lean theorems over an arbitrary hash (no injectivity assumed; conclusions are Good ∨ explicit collision): inclusion and last-inclusion "
        "verifier soundness against the RFC-6962 reference tree for every size/position/adversarial proof, guard theorems, plus (as they land) root "
